@@ -164,3 +164,44 @@ def param(D, name, default=None):
     if not at:
         return default
     return float(prog.avals(at)[0])
+
+
+def sync_freq_default():
+    """f_s of the default machine as main() computes it (binary64)"""
+    f0, E0, H, V = float(f32(9e6)), 1.3e9, 50.0, 1e6
+    alpha0 = float(f32(4e-3))
+    R = C_LIGHT / (2 * math.pi * f0)
+    V0 = E_CHARGE * (E0 / ME) ** 4 / (3 * EPS0 * R)
+    Veff = math.sqrt(V * V - V0 * V0)
+    return f0 * math.sqrt(alpha0 * H * Veff / (2 * math.pi * E0))
+
+
+def steps_equivalence(exe, h5, steps, common_args, names, tol, rfk_tol=None):
+    """The number of steps per synchrotron period can be given as `-N steps` or as `--StepsPerRevolution r` with
+    r*f_rev/f_s = steps ("overwrites StepsPerTs"): every quantity derived from it (time step, rotation angle, damping
+    decrement, modulation increment) must come out the same, so the two runs must agree.  Returns None or a text."""
+    r = steps * sync_freq_default() / float(f32(9e6))
+    outs = []
+    for how in (["-N", str(steps)], ["--StepsPerRevolution", repr(r), "-N", "1000"]):
+        d = prog.scratch()
+        try:
+            a = list(prog.BASE_ARGS) + list(common_args) + how + ["-o", "a.h5"]
+            run = prog.run_inovesa(exe, a, d)
+            if run.rc != 0 or not os.path.exists(os.path.join(d, "a.h5")):
+                return "run with %s failed: %s" % (" ".join(how), (run.err or run.out)[-200:]), a
+            outs.append((prog.dump(h5, os.path.join(d, "a.h5")), a))
+        finally:
+            shutil.rmtree(d, ignore_errors=True)
+    (D0, a0), (D1, a1) = outs
+    for nme in names:
+        if nme not in D0["dsets"] or nme not in D1["dsets"]:
+            return "dataset %s missing" % nme, a1
+        v0, v1 = prog.fvals(D0["dsets"][nme]), prog.fvals(D1["dsets"][nme])
+        if len(v0) != len(v1):
+            return ("%s has %d values with -N %d and %d with --StepsPerRevolution %r" % (nme, len(v0), steps, len(v1), r)), a1
+        t = rfk_tol if (rfk_tol is not None and nme == "/RFKicks/data") else tol
+        for i, (x, y) in enumerate(zip(v0, v1)):
+            if not abs(x - y) <= t * max(1.0, abs(x)):
+                return ("%s entry %d is %r with `-N %d` and %r with the same step given as `--StepsPerRevolution %r`"
+                        % (nme, i, x, steps, y, r)), a1
+    return None, a1
